@@ -5,7 +5,7 @@ import ast
 import opcode as _opcode
 from typing import Any, Callable, Dict, Iterable, List, Optional, Sequence, Set, Tuple
 
-from mtsa.absint import Interp, K, R, S, U, V, State, truth
+from mtsa.absint import Interp, K, R, Ref, S, U, V, State, truth
 from mtsa.cfg import CFG, Node
 from mtsa.index import (
     FunctionInfo,
@@ -155,6 +155,31 @@ class RepoInterp:
         return None
 
     def on_attr(self, obj: V, attr: str, node: ast.AST, st: State) -> Optional[V]:
+        ci = None
+        if isinstance(obj, R) and obj.kind == "inst":
+            ci = self.class_of(obj)
+        elif isinstance(obj, Ref) and obj.kind == "obj":
+            cfq = st.deref(obj).get("__class__")
+            if isinstance(cfq, K):
+                mn, _, cn = cfq.v.rpartition(".")
+                ci = self.repo.cls(mn, cn, required=False)
+        if ci is not None:
+            for c in self.repo.mro(ci):
+                if attr in c.attrs:
+                    saved = self.cur_fi
+                    self.cur_fi = FunctionInfo(c.module, c.name + ".<class body>", ast.parse("def _m(): pass").body[0], c)
+                    try:
+                        return self.interp.eval(c.attrs[attr], st)
+                    finally:
+                        self.cur_fi = saved
+                m = c.methods.get(attr)
+                if m is not None and "property" in m.decorators():
+                    saved_c = self.self_class
+                    self.self_class = ci
+                    try:
+                        return self.inline_call(m, ast.Call(func=ast.Name(id=attr, ctx=ast.Load()), args=[], keywords=[]), obj, [], {}, st)
+                    finally:
+                        self.self_class = saved_c
         if isinstance(obj, S) and obj.name.startswith("mod:"):
             return S(obj.name + "." + attr)
         if isinstance(obj, S) and obj.name.startswith("class:"):
@@ -177,7 +202,16 @@ class RepoInterp:
             v = self.call_hook(call, fname, fval, args, kwargs, st)
             if v is not None:
                 return v
+        if self.heap and isinstance(call.func, ast.Attribute) and call.func.attr in ("split", "rsplit") and isinstance(fval, K) and isinstance(fval.v, str) \
+                and all(isinstance(a, K) for a in args):
+            try:
+                return st.alloc("list", [K(x) for x in getattr(fval.v, call.func.attr)(*[a.v for a in args])])
+            except Exception:
+                return None
         v = platform_call(fname, fval, call, args, kwargs)
+        if v is not None:
+            return v
+        v = self.generic_call(call, fname, fval, args, kwargs, st)
         if v is not None:
             return v
         callee = self.resolve(call, fval)
@@ -186,6 +220,104 @@ class RepoInterp:
         return None
 
     self_class: Any = None  # dynamic class of `self` in the scenario (method resolution starts there)
+    dispatch_instances: bool = False  # method calls on R('inst', __cls__=...) records are resolved in their class
+    construct_instances: bool = False  # Class(...) of a package class allocates an object and runs its __init__
+
+    def class_of(self, inst: V) -> Any:
+        if isinstance(inst, R) and inst.kind == "inst" and "__cls__" in inst.fields:
+            fq = inst.fields["__cls__"].v
+            m, _, c = fq.rpartition(".")
+            return self.repo.cls(m, c, required=False)
+        return None
+
+    def generic_call(self, call: ast.Call, fname: Optional[str], fval: Optional[V], args: List[V], kwargs: Dict[str, V], st: State) -> Optional[V]:
+        meth = call.func.attr if isinstance(call.func, ast.Attribute) else None
+        it = self.interp
+        if meth == "join" and isinstance(fval, K) and isinstance(fval.v, str) and len(args) == 1:
+            seq = it.iterate(args[0], st)
+            if seq is not None and all(isinstance(x, K) and isinstance(x.v, str) for x in seq):
+                return K(fval.v.join(x.v for x in seq))
+            return None
+        if fname == "sorted" and len(args) == 1:
+            seq = it.iterate(args[0], st)
+            if seq is None:
+                return None
+            keyf = [k.value for k in call.keywords if k.arg == "key"]
+            keys: List[Any] = []
+            for x in seq:
+                kv: V = x
+                if keyf:
+                    lam = keyf[0]
+                    if not (isinstance(lam, ast.Lambda) and len(lam.args.args) == 1):
+                        return None
+                    sub = st.fork()
+                    sub.heap, sub._next, sub.effects = st.heap, st._next, st.effects
+                    sub.env[lam.args.args[0].arg] = x
+                    kv = it.eval(lam.body, sub)
+                kk = self._sort_key(kv)
+                if kk is None:
+                    return None
+                keys.append(kk)
+            plain = [tuple(p for p in k[1] if p[0] != "<unsortable>") if k[0] == 1 else k for k in keys]
+            if any(k[0] == 1 and any(p[0] == "<unsortable>" for p in k[1]) for k in keys) and len(set(map(repr, plain))) != len(plain):
+                return None  # a tie would be decided by comparing unsortable objects (TypeError at runtime)
+            order = sorted(range(len(seq)), key=lambda i: repr(plain[i]) if False else plain[i])
+            if any(k.arg == "reverse" for k in call.keywords):
+                return None
+            res = [seq[i] for i in order]
+            return st.alloc("list", res) if self.heap else R("list", items=tuple(res))
+        if meth == "split" and self.heap and isinstance(fval, K) and isinstance(fval.v, str) and all(isinstance(a, K) for a in args):
+            try:
+                return st.alloc("list", [K(x) for x in fval.v.split(*[a.v for a in args])])
+            except Exception:
+                return None
+        if self.construct_instances and isinstance(call.func, (ast.Name, ast.Attribute)):
+            callee0 = self.resolve(call, fval)
+            if callee0 is not None and callee0.cls is not None and callee0.qualname.endswith(".__init__") and not isinstance(fval, (R, Ref)) \
+                    and dotted(call.func) is not None and dotted(call.func).split(".")[-1] == callee0.cls.name.split(".")[-1]:
+                obj = st.alloc("obj", {"__class__": K(callee0.cls.fq)})
+                self.inline_call(callee0, call, obj, args, kwargs, st)
+                return obj
+        if self.dispatch_instances and meth is not None and isinstance(fval, Ref) and fval.kind == "obj":
+            cfq = st.deref(fval).get("__class__")
+            if isinstance(cfq, K):
+                mn, _, cn = cfq.v.rpartition(".")
+                ci0 = self.repo.cls(mn, cn, required=False)
+                m0 = self.repo.method(ci0, meth) if ci0 is not None else None
+                if m0 is not None and m0.fq in self.inline:
+                    saved0 = self.self_class
+                    self.self_class = ci0
+                    try:
+                        return self.inline_call(m0, call, fval, args, kwargs, st)
+                    finally:
+                        self.self_class = saved0
+        if self.dispatch_instances and meth is not None and isinstance(fval, R) and fval.kind == "inst":
+            ci = self.class_of(fval)
+            if ci is not None:
+                m = self.repo.method(ci, meth)
+                if m is not None:
+                    saved = self.self_class
+                    self.self_class = ci
+                    try:
+                        return self.inline_call(m, call, fval, args, kwargs, st)
+                    finally:
+                        self.self_class = saved
+        return None
+
+    def _sort_key(self, v: V) -> Any:
+        if isinstance(v, K) and isinstance(v.v, (str, int, float)):
+            return (0, v.v)
+        if isinstance(v, K) and isinstance(v.v, tuple):
+            parts = []
+            for x in v.v:
+                p = self._sort_key(x)
+                if p is None:
+                    # tuples compare element-wise: a later element matters only on ties of the earlier ones
+                    parts.append(("<unsortable>", id(x)))
+                    break
+                parts.append(p)
+            return (1, tuple(parts)) if parts and parts[0][0] != "<unsortable>" else None
+        return None
 
     def resolve(self, call: ast.Call, fval: Optional[V] = None) -> Optional[FunctionInfo]:
         f = call.func
@@ -278,8 +410,35 @@ class _OracleInterp(Interp):
         if isinstance(e, ast.Set):
             vals = [self.eval(x, st) for x in e.elts]
             return K(frozenset(vals))
+        if isinstance(e, ast.JoinedStr):
+            out = ""
+            for part in e.values:
+                if isinstance(part, ast.Constant):
+                    out += str(part.value)
+                elif isinstance(part, ast.FormattedValue) and part.format_spec is None and part.conversion == -1:
+                    v = self.eval(part.value, st)
+                    if isinstance(v, K) and isinstance(v.v, (str, int)) and not isinstance(v.v, bool):
+                        out += str(v.v)
+                    else:
+                        return U("f-string with a non-constant part")
+                else:
+                    return U("f-string with format spec")
+            return K(out)
         if isinstance(e, ast.BinOp) and isinstance(e.op, (ast.BitAnd, ast.BitOr, ast.Mult, ast.FloorDiv, ast.Mod)):
             l, r = self.eval(e.left, st), self.eval(e.right, st)
+            if isinstance(e.op, ast.Mod) and isinstance(l, K) and isinstance(l.v, str):
+                vals = r.v if isinstance(r, K) and isinstance(r.v, tuple) else (r,)
+                if all(isinstance(x, K) and isinstance(x.v, (str, int, float)) for x in vals):
+                    try:
+                        return K(l.v % tuple(x.v for x in vals))
+                    except Exception:
+                        return U("% formatting")
+                return U("% formatting of a non-constant")
+            if isinstance(e.op, ast.Mult) and isinstance(l, K) and isinstance(r, K) and isinstance(l.v, (str, int)) and isinstance(r.v, (str, int)):
+                try:
+                    return K(l.v * r.v)
+                except Exception:
+                    return U("mult")
             if isinstance(l, K) and isinstance(r, K) and isinstance(l.v, int) and isinstance(r.v, int):
                 ops = {ast.BitAnd: lambda a, b: a & b, ast.BitOr: lambda a, b: a | b, ast.Mult: lambda a, b: a * b,
                        ast.FloorDiv: lambda a, b: a // b if b else 0, ast.Mod: lambda a, b: a % b if b else 0}
